@@ -193,13 +193,18 @@ func (l *capLog) counts(key string, from int) (int, int, int, int) {
 	return r, t, p, len(l.ev)
 }
 
-func (l *capLog) waitFor(key string, from int, want func(r, t, p int) bool, d time.Duration) bool {
+// waitFor waits until the lines for key logged from index `from` on satisfy want; it gives up when d has
+// passed or when abort reports that waiting is pointless.
+func (l *capLog) waitFor(key string, from int, want func(r, t, p int) bool, d time.Duration, abort func() bool) bool {
 	deadline := time.NewTimer(d)
 	defer deadline.Stop()
 	for {
 		r, t, p, _ := l.counts(key, from)
 		if want(r, t, p) {
 			return true
+		}
+		if abort != nil && abort() {
+			return false
 		}
 		select {
 		case <-l.ch:
@@ -269,7 +274,7 @@ var retryGiveUp atomic.Int32
 
 func runRetryCase(c retryCase, long time.Duration) retryResult {
 	res := retryResult{minGap: -1}
-	if retryGiveUp.Load() >= 24 {
+	if retryGiveUp.Load() >= 10 {
 		return res
 	}
 	timedOut := false
@@ -325,9 +330,27 @@ func runRetryCase(c retryCase, long time.Duration) retryResult {
 		return res
 	}
 
+	mainKey := key.String()
+	// waitSeq waits for n finished attempts, or for the scheduler's closing line of the sequence
+	// (logged from index `from` on) when that comes first
+	waitSeq := func(n, from int) bool {
+		deadline := time.Now().Add(patience())
+		for job.finished() < n {
+			if _, t, p, _ := lg.counts(mainKey, from); t+p > 0 {
+				time.Sleep(time.Millisecond)
+				break
+			}
+			if time.Now().After(deadline) {
+				break
+			}
+			job.waitFinished(n, 2*time.Millisecond)
+		}
+		return job.finished() >= n
+	}
+
 	// ---- first execution
-	if !job.waitFinished(exp1, patience()) {
-		flagV("only %d attempt(s) within %v, the configuration requires %d", job.finished(), patience(), exp1)
+	if !waitSeq(exp1, 0) {
+		flagV("only %d attempt(s) were made (the scheduler closed the sequence, or %v passed); the configuration requires %d", job.finished(), patience(), exp1)
 		timedOut = true
 	}
 	cancelled := false
@@ -340,17 +363,16 @@ func runRetryCase(c retryCase, long time.Duration) retryResult {
 		}
 		cancelled = true
 	}
-	mainKey := key.String()
 	// the line that closes the sequence, when there is one
 	switch end1 {
 	case "recovered":
-		if !lg.waitFor(mainKey, 0, func(_, _, p int) bool { return p >= 1 }, patience()) {
-			flagV("the panic of attempt %d was not reported as recovered (\"Job panicked\") within %v", exp1, patience())
+		if !lg.waitFor(mainKey, 0, func(_, _, p int) bool { return p >= 1 }, patience(), func() bool { return job.finished() > exp1 }) {
+			flagV("the panic of attempt %d was not reported as recovered (\"Job panicked\"): %d attempt(s) so far, patience %v", exp1, job.finished(), patience())
 			timedOut = true
 		}
 	case "gaveup", "cancelled":
-		if !lg.waitFor(mainKey, 0, func(_, t, _ int) bool { return t >= 1 }, patience()) {
-			flagV("the sequence did not end (\"Job terminated\") within %v after attempt %d", patience(), exp1)
+		if !lg.waitFor(mainKey, 0, func(_, t, _ int) bool { return t >= 1 }, patience(), func() bool { return job.finished() > exp1 }) {
+			flagV("the sequence did not end (\"Job terminated\") after attempt %d: %d attempt(s) so far, patience %v", exp1, job.finished(), patience())
 			timedOut = true
 		}
 	}
@@ -371,16 +393,16 @@ func runRetryCase(c retryCase, long time.Duration) retryResult {
 			rest = c.script[n1:]
 		}
 		exp2, end2 := retryExpect(c.maxRetries, rest, 0)
-		if !job.waitFinished(n1+exp2, patience()) {
+		if !waitSeq(n1+exp2, logAt) {
 			flagV("after the panic the job's next fire time was not executed as configured: %d attempt(s) within %v, expected %d (script left %q)",
 				job.finished()-n1, patience(), exp2, rest)
 			timedOut = true
 		}
 		switch end2 {
 		case "recovered":
-			timedOut = !lg.waitFor(mainKey, logAt, func(_, _, p int) bool { return p >= 1 }, patience()) || timedOut
+			timedOut = !lg.waitFor(mainKey, logAt, func(_, _, p int) bool { return p >= 1 }, patience(), func() bool { return job.finished() > n1+exp2 }) || timedOut
 		case "gaveup":
-			timedOut = !lg.waitFor(mainKey, logAt, func(_, t, _ int) bool { return t >= 1 }, patience()) || timedOut
+			timedOut = !lg.waitFor(mainKey, logAt, func(_, t, _ int) bool { return t >= 1 }, patience(), func() bool { return job.finished() > n1+exp2 }) || timedOut
 		}
 		time.Sleep(3*c.interval + time.Millisecond)
 		n2 := job.finished() - n1
